@@ -36,7 +36,7 @@ def _kill_tree(proc):
 def _run(cmd, timeout_s, log_path):
     with open(log_path, 'w') as log:
         proc = subprocess.Popen(cmd, cwd=KANI_DIR, env=_env(), stdout=log, stderr=subprocess.STDOUT,
-                                start_new_session=True)
+                                start_new_session=True, preexec_fn=_limit if 'playback' not in cmd else None)
         try:
             rc = proc.wait(timeout=timeout_s)
             timed_out = False
@@ -143,15 +143,93 @@ def run_harnesses(names, jobs=8, harness_timeout_s=120, total_timeout_s=1500, ta
     return dict(results=res, wall_s=wall, problem=problem, log=log_path, cmd=' '.join(cmd))
 
 
-def counterexample(name, harness_timeout_s=300):
-    """Re-run one failing harness with concrete playback; returns (unit test text or None, raw tail)."""
-    cmd = ['cargo', 'kani'] + KANI_FLAGS + ['-Z', 'concrete-playback', '--concrete-playback=print', '--exact',
-                                             '--output-format=terse', '--harness-timeout',
-                                             '%ds' % harness_timeout_s, '--harness', name]
-    log_path = os.path.join(BUILD, 'cex.' + name.replace('::', '.') + '.log')
-    rc, timed_out, text = _run(cmd, harness_timeout_s + 400, log_path)
-    m = re.search(r'Concrete playback unit test for `[^`]*`:\s*```\n(.*?)```', text, re.S)
-    return (m.group(1) if m else None), text[-3000:]
+MEM_LIMIT_KB = 24 * 1024 * 1024     # per cbmc process (Kani's own trace mode was seen to use 65 GB)
+
+
+def _limit():
+    import resource
+    resource.setrlimit(resource.RLIMIT_AS, (MEM_LIMIT_KB * 1024, MEM_LIMIT_KB * 1024))
+
+
+def _goto_file(name):
+    import glob
+    fn = name.rsplit('::', 1)[1]
+    cands = glob.glob(os.path.join(KANI_DIR, 'target/kani/*/debug/build/opcua-verif-kani/*/out/*%d%s.out' % (len(fn), fn)))
+    cands = [c for c in cands if not c.endswith('.symtab.out') and '.pre_' not in c]
+    cands.sort(key=os.path.getmtime)
+    return cands[-1] if cands else None
+
+
+def counterexample(name, desc=None, unwind=None, timeout_s=600):
+    """Concrete failing input of a harness: CBMC is run directly on the goto binary Kani built from the current
+    tree (same flags as Kani, plus --trace, formula slicing on, memory capped); the values returned by
+    kani::any_raw_* along the trace of the failed check become a Kani concrete-playback unit test.
+    Returns (unit test text or None, note)."""
+    gf = _goto_file(name)
+    if not gf:
+        return None, 'goto binary of %s not found' % name
+    cmd = ['cbmc', '--no-malloc-may-fail', '--no-undefined-shift-check', '--no-signed-overflow-check',
+           '--no-div-by-zero-check', '--no-self-loops-to-assumptions', '--no-pointer-primitive-check',
+           '--object-bits', '16', '--sat-solver', 'cadical', '--slice-formula', gf, '--trace', '--json-ui']
+    if unwind:
+        cmd += ['--unwind', str(unwind)]
+    try:
+        p = subprocess.run(cmd, capture_output=True, text=True, timeout=timeout_s, preexec_fn=_limit)
+        data = json.loads(p.stdout)
+    except Exception as e:
+        return None, 'cbmc trace run failed: %s' % e
+    best = None
+    for item in data:
+        for r in item.get('result', []) if isinstance(item, dict) else []:
+            if r.get('status') != 'FAILURE' or 'trace' not in r:
+                continue
+            d = r.get('description', '')
+            if '.cover.' in r.get('property', '') or 'reachability_check' in r.get('property', ''):
+                continue
+            if desc and desc not in d:
+                continue
+            best = r
+            break
+        if best:
+            break
+    if not best:
+        return None, 'no trace for the failed check in cbmc output'
+    vals = []
+    for st in best['trace']:
+        if st.get('stepType') != 'assignment':
+            continue
+        fn = st.get('sourceLocation', {}).get('function', '')
+        if not fn.startswith('kani::any_raw_'):
+            continue
+        if not str(st.get('lhs', '')).startswith('goto_symex$$return_value'):
+            continue
+        v = st.get('value', {})
+        vals.append(_bytes_of(v))
+    fnname = name.rsplit('::', 1)[1]
+    lines = ['/// Test generated for harness `%s` from a CBMC trace' % name, '///',
+             '/// Check: %s' % best.get('description', '').replace('\n', ' '), '#[test]',
+             'fn kani_concrete_playback_%s_%s() {' % (fnname, sha16(json.dumps(vals))[:10]),
+             '    let concrete_vals: Vec<Vec<u8>> = vec![']
+    for b in vals:
+        lines.append('        vec![%s],' % ', '.join(str(x) for x in b))
+    lines += ['    ];', '    kani::concrete_playback_run(concrete_vals, %s);' % fnname, '}']
+    return '\n'.join(lines) + '\n', 'values read from the trace of: ' + best.get('description', '')
+
+
+def _bytes_of(v):
+    """little-endian bytes of a CBMC trace value (scalars, arrays and structs of scalars)"""
+    if 'binary' in v and 'width' in v:
+        n = int(v['width']) // 8
+        x = int(v['binary'], 2)
+        return [(x >> (8 * i)) & 0xff for i in range(max(n, 1))]
+    out = []
+    if 'elements' in v:
+        for e in v['elements']:
+            out += _bytes_of(e.get('value', e))
+    elif 'members' in v:
+        for e in v['members']:
+            out += _bytes_of(e.get('value', e))
+    return out
 
 
 def playback(test_text, harness):
